@@ -19,6 +19,8 @@ def _label(kind, i):
         return -i * 7 - 1
     if kind == "big":        # beyond CPython's small-int cache: equal labels are separate objects
         return 1000 + i
+    if kind == "none":       # None is a hashable label like any other (a virtual super-source, a missing key): as source and on the way
+        return [("a",), None, "b", 0, "c", 1, "d", 2, "e", 3, "f", 4][i] if i < 12 else ("n", i)
     if kind == "odd":        # falsy and mutually unorderable labels (None is left out: goal=None means "explore everything" in bfs/dfs)
         odd = ["", 0, (), 1.5, frozenset(), b"", ("t",), -1, "x", 7, (0, 0), 2.5]
         return odd[i] if i < len(odd) else ("odd", i)
@@ -130,13 +132,14 @@ def run_graph(case):
     rev = [(v, u, w) for u, v, w in E]
     for q in case["queries"]:
         src, dst = q[0], q[1]
+        G = lambda i: labs[i] if labs[i] is not None else (lambda s: s is None)  # noqa: E731  (a goal of None means "explore everything")
         goals = [dst] if len(q) < 3 else sorted(set(q[2]))
         gl = {labs[g] for g in goals}
         pred = (lambda s, gl=gl: s in gl)
         nb_w = lambda s: adj[s]  # noqa: E731
         nb_u = lambda s: [t for t, _ in adj[s]]  # noqa: E731
         if nonneg:
-            events.append(_guard("dijkstra", lambda: _ev_target("dijkstra", src, [dst], dijkstra(labs[src], labs[dst], nb_w), lab2id, scale)))
+            events.append(_guard("dijkstra", lambda: _ev_target("dijkstra", src, [dst], dijkstra(labs[src], G(dst), nb_w), lab2id, scale)))
             events.append(_guard("dijkstra", lambda: _ev_target("dijkstra", src, goals, dijkstra(labs[src], pred, nb_w), lab2id, scale)))
             # consistent heuristic: half the true remaining distance (dead ends get a large constant)
             best = [INF] * n
@@ -145,11 +148,11 @@ def run_graph(case):
                 best = [min(a, b) for a, b in zip(best, dg)]
             h = {labs[i]: (0.5 * best[i] if best[i] < INF else 0.5 * total) for i in range(n)}
             events.append(_guard("astar", lambda: _ev_target("astar", src, goals, astar(labs[src], pred, nb_w, lambda s: h[s]), lab2id, scale)))
-            events.append(_guard("astar", lambda: _ev_target("astar", src, [dst], astar(labs[src], labs[dst], nb_w, lambda s: 0.0), lab2id, scale)))
+            events.append(_guard("astar", lambda: _ev_target("astar", src, [dst], astar(labs[src], G(dst), nb_w, lambda s: 0.0), lab2id, scale)))
             if len(q) > 3:
                 mc = q[3]
-                events.append(_guard("dijkstra", lambda: _ev_target("dijkstra", src, [dst], dijkstra(labs[src], labs[dst], nb_w, max_cost=mc / scale), lab2id, scale, mc)))
-                events.append(_guard("astar", lambda: _ev_target("astar", src, [dst], astar(labs[src], labs[dst], nb_w, lambda s: 0.0, max_cost=mc / scale), lab2id, scale, mc)))
+                events.append(_guard("dijkstra", lambda: _ev_target("dijkstra", src, [dst], dijkstra(labs[src], G(dst), nb_w, max_cost=mc / scale), lab2id, scale, mc)))
+                events.append(_guard("astar", lambda: _ev_target("astar", src, [dst], astar(labs[src], G(dst), nb_w, lambda s: 0.0, max_cost=mc / scale), lab2id, scale, mc)))
             events.append(_guard("dijkstra_edges", lambda: _ev_target("dijkstra_edges", src, [dst], dijkstra_edges(n, E, src, target=dst, backend="python"), {i: i for i in range(n)}, scale)))
 
             def _all_dij():
@@ -161,13 +164,13 @@ def run_graph(case):
         # iteration limits: any answer other than MAX_ITER must still be right
         for mi in case.get("max_iters", (1, 2, 4)):
             if nonneg:
-                events.append(_guard("dijkstra", lambda: _ev_target("dijkstra", src, [dst], dijkstra(labs[src], labs[dst], nb_w, max_iter=mi), lab2id, scale, max_iter=mi)))
-                events.append(_guard("astar", lambda: _ev_target("astar", src, [dst], astar(labs[src], labs[dst], nb_w, lambda s: 0.0, max_iter=mi), lab2id, scale, max_iter=mi)))
-            events.append(_guard("bfs", lambda: _ev_target("bfs", src, [dst], bfs(labs[src], labs[dst], nb_u, max_iter=mi), lab2id, 1, max_iter=mi)))
-            events.append(_guard("dfs", lambda: _ev_target("dfs", src, [dst], dfs(labs[src], labs[dst], nb_u, max_iter=mi), lab2id, 1, max_iter=mi)))
+                events.append(_guard("dijkstra", lambda: _ev_target("dijkstra", src, [dst], dijkstra(labs[src], G(dst), nb_w, max_iter=mi), lab2id, scale, max_iter=mi)))
+                events.append(_guard("astar", lambda: _ev_target("astar", src, [dst], astar(labs[src], G(dst), nb_w, lambda s: 0.0, max_iter=mi), lab2id, scale, max_iter=mi)))
+            events.append(_guard("bfs", lambda: _ev_target("bfs", src, [dst], bfs(labs[src], G(dst), nb_u, max_iter=mi), lab2id, 1, max_iter=mi)))
+            events.append(_guard("dfs", lambda: _ev_target("dfs", src, [dst], dfs(labs[src], G(dst), nb_u, max_iter=mi), lab2id, 1, max_iter=mi)))
         events.append(_guard("bfs", lambda: _ev_target("bfs", src, goals, bfs(labs[src], pred, nb_u), lab2id, 1)))
-        events.append(_guard("bfs", lambda: _ev_target("bfs", src, [dst], bfs(labs[src], labs[dst], nb_u), lab2id, 1)))
-        events.append(_guard("dfs", lambda: _ev_target("dfs", src, [dst], dfs(labs[src], labs[dst], nb_u), lab2id, 1)))
+        events.append(_guard("bfs", lambda: _ev_target("bfs", src, [dst], bfs(labs[src], G(dst), nb_u), lab2id, 1)))
+        events.append(_guard("dfs", lambda: _ev_target("dfs", src, [dst], dfs(labs[src], G(dst), nb_u), lab2id, 1)))
         EU = [(u, v) for u, v, _ in E]
         events.append(_guard("bfs_edges", lambda: _ev_target("bfs_edges", src, [dst], bfs_edges(n, EU, src, target=dst, backend="python"), {i: i for i in range(n)}, 1)))
         events.append(_guard("dfs_edges", lambda: _ev_target("dfs_edges", src, [dst], dfs_edges(n, EU, src, target=dst, backend="python"), {i: i for i in range(n)}, 1)))
@@ -251,7 +254,7 @@ def gen_graph(rng, nmax=9, small=False):
         if rng.random() < 0.5:
             q.append(rng.randint(0, 12))
         qs.append(q)
-    return {"n": n, "edges": edges, "wscale": scale, "labels": rng.choice(["int", "str", "tuple", "neg", "odd", "big"]), "queries": qs}
+    return {"n": n, "edges": edges, "wscale": scale, "labels": rng.choice(["int", "str", "tuple", "neg", "odd", "big", "none"]), "queries": qs}
 
 
 def gen_grid(rng, rmax=7, cmax=7):
